@@ -152,3 +152,56 @@ def r12_matches_macro(text, log):
         return f"match {m.group(1)} {{ {m.group(2)} => true, _ => false }}"
     new, k = re.subn(r"matches!\(\s*([a-z_]+)\s*,\s*([^()]*?)\)", rep, text)
     return new
+
+
+FMT_LITERALS = {
+    '"{self}"': ("display", lambda args: ["self"]),
+    '"#{}{}"': ("block_header", lambda args: args),
+    '"\\"{self}\\""': ("quoted", lambda args: ["*self"]),
+    '"\\"{}\\""': ("quoted", lambda args: args),
+}
+
+
+def r6_write_macro(text, log):
+    """R6: `write!(f, LIT, a...)` -> `fmt_model::<name of LIT>(f, a...)`: core::fmt is replaced by the trusted model
+    of prelude/fmt_model.vrs, keyed by the literal format string; an unknown literal maps to `fmt_model::unknown`,
+    which promises nothing (so the postcondition fails rather than passes)."""
+    while True:
+        toks = lex(text)
+        hit = None
+        for k, t in enumerate(toks):
+            if t.kind == "ident" and t.text == "write":
+                n = _next_code(toks, k)
+                if n < len(toks) and toks[n].text == "!":
+                    o = _next_code(toks, n)
+                    if toks[o].text == "(":
+                        hit = (k, o, match_close(toks, o))
+                        break
+        if not hit:
+            return text
+        k, o, c = hit
+        # split args at depth 0
+        args, cur, depth = [], [], 0
+        j = o + 1
+        while j < c:
+            tt = toks[j]
+            if tt.kind == "punct" and tt.text in "([{":
+                depth += 1
+            elif tt.kind == "punct" and tt.text in ")]}":
+                depth -= 1
+            if tt.kind == "punct" and tt.text == "," and depth == 0:
+                args.append("".join(x.text for x in cur).strip())
+                cur = []
+            else:
+                cur.append(tt)
+            j += 1
+        if cur:
+            args.append("".join(x.text for x in cur).strip())
+        dest, lit, rest = args[0], args[1], args[2:]
+        if lit in FMT_LITERALS:
+            name, fargs = FMT_LITERALS[lit]
+            call = f"fmt_model::{name}({dest}, {', '.join(fargs(rest))})"
+        else:
+            call = f"fmt_model::unknown({dest})"
+        log.append(("R6", f"write!({dest}, {lit}, ..) -> {call}"))
+        text = apply_edits(text, [(toks[k].start, toks[c].end, call)])
